@@ -282,6 +282,14 @@ def _norm_const(t):
         s = _small_symbol(int(m.group(1)))
         if s is not None:
             return ('sym', s)
+    # a constant whose value is a unit variant of an enum (`const KEY: DataKey = DataKey::Migrating;`, or a promoted `&DataKey::X`)
+    # is the same value as the variant built in place
+    m = re.match(r'^((?:\w+::)+[A-Z]\w*)::([A-Z]\w*)$', v)
+    if m:
+        return ('variant', m.group(1), m.group(2), ())
+    m = re.match(r'^((?:\w+::)*Option)::<.*>::None$', v)
+    if m:
+        return ('variant', m.group(1), 'None', ())
     return ('const', v) + tuple(t[2:])
 
 
